@@ -1031,11 +1031,13 @@ func TestVerifC20(t *testing.T) {
 	var jobs []job
 	nMain := verifkit.Pick(400, 4000)
 	nSmall := verifkit.Pick(600, 8000)
-	for i := 0; i < nMain; i++ {
-		jobs = append(jobs, job{"main", i})
-	}
+	// Small cases first: the first witnesses stored per violation key are
+	// then the smallest ones.
 	for i := 0; i < nSmall; i++ {
 		jobs = append(jobs, job{"small", i})
+	}
+	for i := 0; i < nMain; i++ {
+		jobs = append(jobs, job{"main", i})
 	}
 	maxBytes := verifkit.Pick(4<<20, 10<<20)
 	budget := verifkit.Pick(50, 100)
